@@ -160,10 +160,11 @@ CHECKS = {
     "C16": dict(
         level="exploration",
         text=("Seeded simulated histories on tree-shaped object graphs (a fresh object at every "
-              "insertion) over child / children / table links: an extended name of 1-3 links, "
+              "insertion; 40 % of the worlds use value-object nodes) over child / children / table "
+              "/ group (Set) links: an extended name of 1-3 links, "
               "each '.' or ':', is registered once through on_trait_change (handler arity 0, 3 or "
               "4) and once through observe for the corresponding expression. Link reassignment, "
-              "list and dict mutators, container reassignment, gc, drop of detached nodes and "
+              "list, dict and set mutators, container reassignment, gc, drop of detached nodes and "
               "removal of both registrations at a generated point; after every op every object "
               "ever created is probed. Oracle: for every probe legacy called <=> observe called "
               "<=> reachable in the model; reassignment of an intermediate link is reported by "
@@ -186,10 +187,12 @@ CHECKS = {
               "objects are cloned (clone_traits deep/None/shallow, deepcopy); each copy is "
               "compared with a plain-Python model (class, values, transients reset, identity "
               "structure per copy mode, no shared container at any depth), then a liveness "
-              "battery runs on it (invalid items rejected with TraitError at every depth, items "
+              "battery runs on it (first every cached property against the copy's own state - a "
+              "class-level handler reads a two-dependency cached property while the object is "
+              "being filled -, then invalid items rejected with TraitError at every depth, items "
               "events reach name_items handlers and declared observers, observed property "
               "recomputes, ReadOnly stays written), originals must not move, and the history "
-              "continues on restored pools. 14 kinds of trait definition objects (incl. a "
+              "continues on restored pools. 38 kinds of trait definition objects (incl. a "
               "validated Property) are round-tripped by pickle/copy/deepcopy and compared with "
               "their originals on default value and a value set. An interpreter crash is "
               "triaged to the in-flight run, minimised in child processes and reported. "
@@ -204,9 +207,10 @@ CHECKS = {
     "C10": dict(
         level="exploration",
         text=("Seeded simulated histories on 2-5 instances (created at generated moments) of a "
-              "generated class and a subclass overriding defaults, with fifteen default kinds "
+              "generated class and a subclass overriding defaults, with sixteen default kinds "
               "(constant, list/dict copy, List/Dict/Set objects, factory, _name_default, Tuple "
-              "and Union with List/Set/Dict members incl. a nested Tuple, Instance with args): reads and re-reads, "
+              "and Union with List/Set/Dict members incl. a nested Tuple, Instance with args, a "
+              "default whose post_setattr hook fails on the first read): reads and re-reads, "
               "in-place mutation of default containers (also nested in the Tuple), valid and "
               "invalid assignments, registering/removing on_trait_change and observe handlers "
               "(copy-on-write instance traits; each handler tagged with the instance it was "
@@ -232,7 +236,8 @@ CHECKS = {
         level="exploration",
         text=("Seeded simulated histories on a Child deferring ten attributes (DelegatesTo and "
               "PrototypedFrom in the four prefix styles - same name, explicit name, 'prefix*', "
-              "'*' with __prefix__ - and two-level chains through an intermediate object) to "
+              "'*' with __prefix__ declared in the class, inherited with everything else or "
+              "inherited from a mixin - and two-level chains through an intermediate object) to "
               "2-3 candidate delegates: valid and invalid assignments through the deferring "
               "object, assignments on any candidate, swapping the delegate and the chain links, "
               "deleting local values, gc, drop of former delegates, pickle restart, with "
@@ -299,7 +304,8 @@ CHECKS = {
               "callback site of the statement: custom validators, a two-alternative Union, "
               "_name_default and factory defaults, property getter/setter, cached observed "
               "property, List/Dict/Set item validators at the k-th item, a stand-alone TraitList, "
-              "Supports with a two-factory adapter chain, delegation, observed child links, an "
+              "Supports with a two-factory adapter chain, delegation, a PrototypedFrom attribute, "
+              "quiet assignments (trait_setq), observed child links, an "
               "attribute kept equal on two objects by sync_trait (its partner-side validation "
               "fails inside the library's own propagation handler: nested deciding callback), "
               "handler (un)registration; static, on_trait_change and observe handlers. For each "
@@ -336,8 +342,10 @@ CHECKS = {
               "child interpreters and reported with the sanitizer report attached. (ref) Normal "
               "build: sys.getrefcount deltas of sentinel values and of the objects around every "
               "op of a reference-counting world (30 op kinds incl. failing validators and "
-              "handlers) must equal the holder count of a model, and 14 closed op cycles "
-              "repeated in three batches of 400 must plateau in sys.getallocatedblocks(). "
+              "handlers) must equal the holder count of a model, and 22 closed op cycles (incl. "
+              "failing and succeeding walks of delegation chains) repeated in three batches of "
+              "400 must plateau in sys.getallocatedblocks() and leave the reference counts of "
+              "long-lived objects (instances, classes, class traits, names) where they were. "
               "Sampling, not proof."),
         note=("Trusted base: gcc's AddressSanitizer/UBSan, CPython's reference counts and block "
               "counter. Allocation-failure injection is rejected (DESIGN 4/C18). In-range but "
